@@ -1146,7 +1146,9 @@ class MultiTestResult(TestResult):
     failfast = property(_get_failfast, _set_failfast)
 
     def _get_shouldStop(self):
-        return any(self._dispatch("__getattr__", "shouldStop"))
+        # Ask the adapters, not the objects behind them: an old-style result
+        # without shouldStop has it kept by its ExtendedToOriginalDecorator.
+        return any([result.shouldStop for result in self._results])
 
     def _set_shouldStop(self, value):
         # Called because we subclass TestResult. Probably should not do that.
